@@ -76,8 +76,23 @@ func (w *World) registerJSONIntrinsics() {
 		obj := e.newObject(t, &StructVal{[]Value{&IfaceVal{typ: mt, val: m.(Value)}}}, "json")
 		return tuple(&Pointer{obj: obj}, nilIface)
 	}
+	// json.Marshal: the text is opaque but for its delimiters (a list is [...], an object {...},
+	// a string "..."): enough to tell it from base64/hex material
 	I["encoding/json.Marshal"] = func(e *Exec, fn *ssa.Function, a []Value) Value {
-		return tuple(&BytesVal{s: e.fresh("json", SStr)}, nilIface)
+		inner := e.fresh("json", SStr)
+		if iv, ok := a[0].(*IfaceVal); ok {
+			switch e.jsonKind(iv) {
+			case "slice":
+				return tuple(&BytesVal{s: mkConcat(mkStr("["), inner, mkStr("]"))}, nilIface)
+			case "map":
+				return tuple(&BytesVal{s: mkConcat(mkStr("{"), inner, mkStr("}"))}, nilIface)
+			case "string":
+				return tuple(&BytesVal{s: mkConcat(mkStr("\""), inner, mkStr("\""))}, nilIface)
+			case "nil":
+				return tuple(&BytesVal{s: mkStr("null")}, nilIface)
+			}
+		}
+		return tuple(&BytesVal{s: inner}, nilIface)
 	}
 	cast := "github.com/spf13/cast"
 	I[cast+".ToStringE"] = func(e *Exec, fn *ssa.Function, a []Value) Value {
